@@ -230,15 +230,16 @@ pub fn update_phase_noop(_g: &mut Game) {}
 // the native round-trip test use the real String.
 #[cfg(kani)]
 pub mod sink {
-    pub static mut BUF: [u8; 16] = [0; 16];
+    pub const CAP: usize = 96;
+    pub static mut BUF: [u8; CAP] = [0; CAP];
     pub static mut LEN: usize = 0;
     pub fn push(_s: &mut String, ch: char) {
-        unsafe { assert!((ch as u32) < 128 && LEN < 16, "sink: non-ASCII char or overflow"); BUF[LEN] = ch as u8; LEN += 1; }
+        unsafe { assert!((ch as u32) < 128 && LEN < CAP, "sink: non-ASCII char or overflow"); BUF[LEN] = ch as u8; LEN += 1; }
     }
     pub fn push_str(_s: &mut String, t: &str) {
         let b = t.as_bytes();
         let mut i = 0;
-        while i < b.len() { unsafe { assert!(LEN < 16, "sink overflow"); BUF[LEN] = b[i]; LEN += 1; } i += 1; }
+        while i < b.len() { unsafe { assert!(LEN < CAP, "sink overflow"); BUF[LEN] = b[i]; LEN += 1; } i += 1; }
     }
 }
 
@@ -346,4 +347,47 @@ pub fn native_fen_roundtrip() {
             check(&mut g);
         }
     }
+}
+
+/// the test after the scanner loop (slice verif_fen_board_end): the board field is accepted only when
+/// the scanner stands at the end of rank 1 (row 0, col 8) -- with the step contract this means all 64
+/// squares were described, none missing, none extra
+#[cfg_attr(kani, kani::proof)]
+#[cfg_attr(kani, kani::unwind(10))]
+#[cfg_attr(kani, kani::stub(std::backtrace::Backtrace::capture, backtrace_disabled))]
+#[cfg_attr(verif_replay, test)]
+pub fn fen_board_end_contract() {
+    let (row, col) = (nd::i8_in(0, 7), nd::i8_in(0, 8));
+    #[cfg(not(kani))]
+    eprintln!("scanner state after the board field: row {} col {}", row, col);
+    let r = Game::verif_fen_board_end(row, col);
+    let ok = r.is_ok();
+    core::mem::forget(r);
+    assert!(ok == (row == 0 && col == 8), "C17: a board field that does not end exactly at the end of rank 1 is accepted (squares missing) or a complete one rejected");
+    vcover!(ok, "accepted reachable");
+}
+
+/// one step of Game::get_pgn (slice verif_pgn_step): before every White move (even index) the move
+/// number `i/2+1`, a dot and a space; then the move's text and a space.  Indices 0..=17 (numbers 1..9).
+#[cfg_attr(kani, kani::proof)] #[cfg_attr(kani, kani::unwind(17))]
+#[cfg_attr(kani, kani::stub(std::string::String::push, sink::push))] #[cfg_attr(kani, kani::stub(std::string::String::push_str, sink::push_str))]
+#[cfg_attr(verif_replay, test)]
+pub fn pgn_step_contract() {
+    let i = nd::usize_below(18);
+    let text = String::from("Nbd7");
+    let mut s = String::new();
+    #[cfg(kani)]
+    unsafe { sink::LEN = 0; }
+    Game::verif_pgn_step(i, &text, &mut s);
+    #[cfg(kani)]
+    let got: &[u8] = unsafe { &sink::BUF[..sink::LEN] };
+    #[cfg(not(kani))]
+    let got: &[u8] = s.as_bytes();
+    if i % 2 == 0 {
+        assert!(got.len() == 8 && got[0] == b'1' + (i / 2) as u8 && got[1] == b'.' && got[2] == b' ' && &got[3..7] == b"Nbd7" && got[7] == b' ',
+                "C20: move record numbering: a White move is not preceded by `<number>. ` or not followed by a space");
+    } else {
+        assert!(got.len() == 5 && &got[0..4] == b"Nbd7" && got[4] == b' ', "C20: move record: a Black move is not written as `<text> `");
+    }
+    vcover!(i == 16, "ninth move number reachable");
 }
